@@ -44,6 +44,9 @@ ASSUMPTIONS = [
     "quantifier parameters are user-typed, no simulated effects (as for C01: the documented semantics is silent there)",
     "the model mirrors the code WITH notes/patches/C27-deorder-state-invariants.patch (D-C27: a step that writes a fluent "
     "of a state invariant reads all fluents of that invariant)",
+    "generated problems have no quantifier over a user type without objects: there the grounder's simplifier (which unwraps "
+    "a quantifier whose variable vanished, C11's open finding D-C11e) and the quantifier remover used by the deordering "
+    "disagree, and the property fails on the real code (known finding D-C27-objectless-quantifier, witness replayed on every run)",
 ]
 MODELLED = [
     "modelled by hand (tied by correspondence): SequentialPlan._to_partial_order_plan (lifted required fluents through "
@@ -311,6 +314,7 @@ def gen_problem(rng):
     """simlib.gen_problem (C01's canonical problems) with, in 60% of the cases, 3-5 SMALL actions (<= 1 precondition,
     <= 2 effects) instead of 1-3 big ones, so that plans have steps that do not touch one another"""
     g = upp.ProblemGen(rng, undefined=rng.random() < 0.4, invariants=True, metrics=False)
+    g.eg.empty_type = False       # no quantifier over the object-less type E: known finding D-C27-objectless-quantifier
     ps = g.problem()
     if rng.random() < 0.6:
         acts = []
@@ -389,10 +393,63 @@ def coupling_case(rng):
     return ["deorder", ps, ["fn"], ["plan"] + steps]
 
 
+def quantified_case(rng):
+    """adversarial family: a step that reads ground fluents only THROUGH a quantifier (precondition, condition of a
+    conditional effect) or writes them through a forall effect, next to steps that write / read single instances"""
+    g = upp.ProblemGen(rng, undefined=False, invariants=False)
+    FL = g.FL
+    fl = lambda n, *a: ["fl", FL[n]] + list(a)
+    S, T = ["user", "S"], ["user", "T"]
+    v = lambda n, t: ["v", n, t]
+    p = lambda n, t: ["p", n, t]
+    eff = lambda kind, f, val, c=None, vs=None: ["eff", kind, f, val, c or ["b", "T"], vs or []]
+    init = {"b0": ["b", "T"], "b1": ["b", "F"], "bq": ["b", "F"], "x": ["i", "0"], "xb": ["i", "0"],
+            "xq": ["i", "0"], "z": ["i", "0"], "zb": ["i", "1"], "at": ["o", "t1", "T"], "own": ["o", "s1", "S"]}
+    readers = [
+        ["action", "r", [], ["pre", ["forall", [["k", S]], ["not", fl("bq", v("k", S))]]], ["effs", eff("increase", fl("z"), ["i", "1"])]],
+        ["action", "r", [], ["pre", ["not", ["exists", [["k", T]], fl("bq", v("k", T))]]], ["effs", eff("assign", fl("b1"), ["b", "T"])]],
+        ["action", "r", [], ["pre", ["forall", [["k", S]], ["le", fl("xq", v("k", S)), ["i", "0"]]]], ["effs", eff("increase", fl("x"), ["i", "1"])]],
+        ["action", "r", [], ["pre"], ["effs", eff("assign", fl("b0"), ["b", "F"], ["exists", [["k", S]], fl("bq", v("k", S))])]],
+        ["action", "r", [], ["pre"], ["effs", eff("assign", fl("at"), ["o", "s2", "S"], ["forall", [["k", S]], ["le", ["i", "1"], fl("xq", v("k", S))]])]],
+        ["action", "r", [], ["pre"], ["effs", eff("assign", fl("bq", v("w", S)), ["b", "F"], None, [["w", S]])]],
+        ["action", "r", [], ["pre"], ["effs", eff("increase", fl("xq", v("w", S)), ["i", "1"], ["not", fl("bq", v("w", S))], [["w", S]])]],
+    ]
+    writers = [
+        ["action", "w", [["p0", S]], ["pre"], ["effs", eff("assign", fl("bq", p("p0", S)), ["b", "T"])]],
+        ["action", "w", [["p0", S]], ["pre"], ["effs", eff("increase", fl("xq", p("p0", S)), ["i", "1"])]],
+        ["action", "w", [["p0", S]], ["pre", ["not", fl("bq", p("p0", S))]], ["effs", eff("assign", fl("b1"), ["b", "T"])]],
+        ["action", "w", [["p0", S]], ["pre"], ["effs", eff("assign", fl("own", p("p0", S)), ["o", "t1", "T"], ["le", fl("xq", p("p0", S)), ["i", "0"]])]],
+    ]
+    other = ["action", "o", [], ["pre"], ["effs", eff("increase", fl("zb"), ["r", "1/2"])]]
+    R, Wr = rng.choice(readers), rng.choice(writers)
+    ps = ["problem", "quantified", ["types"] + g.TYPES, ["objects"] + g.OBJECTS,
+          ["fluents"] + [[FL[n], init[n]] for n in FL], ["init"], ["actions", R, Wr, other], ["goals"], ["traj"], ["metrics"]]
+    P, _ = upp.build_problem(ps)
+    ps = upp.enc_problem(P)
+    pool = [["r", []], ["w", ["s1"]], ["w", ["s2"]], ["o", []]]
+    best = None
+    for _ in range(8):
+        n = rng.randint(2, 4)
+        steps = [rng.choice(pool) for _ in range(n)]
+        if not any(st[0] == "r" for st in steps) or not any(st[0] == "w" for st in steps):
+            continue
+        c = ["deorder", ps, ["fn"], ["plan"] + steps]
+        best = best or c
+        try:
+            if Run(c).validate(Run(c).plan)[0] == "T":
+                return c
+        except Exception:
+            continue
+    return best or ["deorder", ps, ["fn"], ["plan", ["r", []], ["w", ["s1"]]]]
+
+
 def make_case(rng, tier, maxlen=None):
     maxlen = maxlen or (4 if tier == "quick" else 6)
-    if rng.random() < 0.07:
+    k = rng.random()
+    if k < 0.07:
         return coupling_case(rng)
+    if k < 0.17:
+        return quantified_case(rng)
     while True:
         ps = gen_problem(rng)
         if ps is None:
@@ -474,8 +531,33 @@ def make_case(rng, tier, maxlen=None):
         return ["deorder", out, ["fn"] + fns, ["plan"] + [[an, list(args)] for an, args in steps]]
 
 
+def _objectless_quantifier(ps):
+    found = []
+
+    def look(e):
+        if isinstance(e, list) and e:
+            if e[0] in ("exists", "forall") and len(e) == 3 and isinstance(e[1], list):
+                for v in e[1]:
+                    if isinstance(v, list) and len(v) == 2 and isinstance(v[1], list) and v[1][0] == "user" \
+                            and not upp.objects_of(ps, v[1][1]):
+                        found.append(v)
+            for x in e:
+                look(x)
+    look(upp.get(ps, "actions"))
+    look(upp.get(ps, "traj"))
+    return bool(found)
+
+
+def known_cause(payload):
+    """D-C27-objectless-quantifier (= C11's open finding D-C11e seen through the grounder): the grounder's simplifier
+    unwraps a quantifier whose variable does not occur in its body, the quantifier remover used by the deordering expands
+    it over the (empty) object set; over a type without objects the two disagree, so the grounded action reads fluents the
+    deordering never sees"""
+    return "D-C27-objectless-quantifier" if _objectless_quantifier(payload[1]) else None
+
+
 def cases(rng, tier):
-    n = 260 if tier == "quick" else 4000
+    n = 260 if tier == "quick" else 3200
     for _ in range(n):
         yield make_case(rng, tier)
 
